@@ -14,6 +14,14 @@ CLAIMED = {
         technique="exhaustive enumeration of the CRC state space on the real code against bit-serial polynomial division",
         text="Bounded exhaustive exploration of the real modes_checksum / Message::try_from: all 2^32 four-byte prefixes (every 24-bit CRC state with every next byte), all 2^24 trailers, every 16-bit window at every offset of long frames, every 1-bit, 2-bit and burst<=24 error pattern, base frames x all 2^24 syndromes (thorough), all 2^24 addresses per AP format. Each case is compared with an independent bit-serial division. This is the right level because the CRC is a finite-state loop: covering every (state, byte) pair decides it for all lengths.",
         note="Trusted: the bit-serial reference division (15 lines, self-checked against its own per-byte linear form); the loop-body induction argument; AP payloads limited to 3 backgrounds (overlay is linear)."),
+    "C04": dict(engine=E1, design="4/C04",
+        technique="complete enumeration of all CPR code cells (integer-exact encoder) through the real decoder",
+        text="Every point on Earth collapses to finitely many code cells; latitude and longitude factorise through NL. The check enumerates all 7.8 M latitude cells x both orders x 3 longitude backgrounds, all 456 M longitude cells of all 59 bands x both orders x representative latitude cells, every mixed-band cell and every same-parity relabelling, calls the real airborne_position on each and compares with an integer-exact DO-260B encoder (NL from the closed form at 50 digits). Complete over the code space, so the verdict is exact up to the stated factorisation (re-checked at run time).",
+        note="Trusted: the integer encoder and NL thresholds (tools/nl_table.py re-derives them); factorisation assumption (latitude independent of longitude codes; longitude depends on latitude only through NL), both re-validated during the run; mean-sphere radius for the 10 m tolerance."),
+    "C05": dict(engine=E1, design="4/C05",
+        technique="complete enumeration of single-message CPR cells x a reference alphabet through the real decoders",
+        text="Every single-message latitude cell (airborne/surface x even/odd) against references at the cell ends +- {0, ulp, 1/4, 1/2, 3/4, 0.95 of the range} and on every zone edge in range (exact, +-1, +-2 ulp); every longitude cell of every band against the same alphabet scaled by the largest admissible longitude offset; every 17-bit count against absolute adversarial references (poles, +-180, zone edges, 1e300, f64::MAX, subnormals). Real airborne_/surface_position_with_reference are executed for each.",
+        note="Trusted: the interval (monotonicity) argument for references between the enumerated ones; references beyond 0.95 of the range and surface positions next to the poles (45 NM disc wider than half a zone) are outside the claim; quick covers a subset of bands."),
     "C13": dict(engine=E1, design="4/C13",
         technique="complete enumeration of every code of each finite domain against a constructive Gillham/Gray reference",
         text="Complete enumeration: all 2^13 AC codes through DF4/0/16/20 frames, all 2^12 ME altitude codes through DF17 frames, all 2^16 gray2alt arguments, all 2^13 identity codes (function and DF5/DF21 frames), decoded by the real readers and compared with a reference built constructively from Annex 10 (reflected Gray code for 500 ft, 5-cycle for 100 ft, bit-order table). Domains are finite and fully covered, so the verdict is exact.",
